@@ -186,9 +186,15 @@ def ctor_table():
                              lambda: M.ContainedByDict({K1: M.Never(), K2: M.Never(), Color.RED: M.Never(), Color.BLUE: M.Never()})]),
         ('MatchesException', [lambda: M.MatchesException(ValueError), lambda: M.MatchesException((KeyError, ValueError)), lambda: M.MatchesException(()),
                               lambda: M.MatchesException(ValueError(1)), lambda: M.MatchesException(ValueError((1, 2), 'x')), lambda: M.MatchesException(ValueError()),
-                              lambda: M.MatchesException(ValueError, '2'), lambda: M.MatchesException(Exception, M.MatchesStructure(args=M.Equals((3,))))]),
-        ('Raises', [lambda: M.Raises(), lambda: M.Raises(M.MatchesException(KeyError)), lambda: M.Raises(M.Never())]),
-        ('raises', [lambda: M.raises(ValueError), lambda: M.raises((KeyError, TypeError)), lambda: M.raises(ValueError(2))]),
+                              lambda: M.MatchesException(ValueError, '2'), lambda: M.MatchesException(Exception, M.MatchesStructure(args=M.Equals((3,)))),
+                              # round g: classes with a metaclass, a named tuple of classes, __slots__, subclasses of the signal exceptions
+                              lambda: M.MatchesException(C6.MetaError), lambda: M.MatchesException(C6.MetaError, 'x'), lambda: M.MatchesException(C6.MetaSub((1, 2))),
+                              lambda: M.MatchesException(C6.named_tuple_of([C6.MetaValueError, KeyError])), lambda: M.MatchesException(C6.named_tuple_of([])),
+                              lambda: M.MatchesException(C6.OddError, M.Never()), lambda: M.MatchesException(C6.UserInterrupt), lambda: M.MatchesException(C6.OddError(1))]),
+        ('Raises', [lambda: M.Raises(), lambda: M.Raises(M.MatchesException(KeyError)), lambda: M.Raises(M.Never()),
+                    lambda: M.Raises(M.MatchesException(C6.MetaError)), lambda: M.Raises(M.MatchesException(C6.UserExit))]),
+        ('raises', [lambda: M.raises(ValueError), lambda: M.raises((KeyError, TypeError)), lambda: M.raises(ValueError(2)),
+                    lambda: M.raises(C6.MetaError), lambda: M.raises(C6.named_tuple_of([C6.MetaSub, C6.OddError])), lambda: M.raises(C6.MetaSub(2))]),
         ('MatchesPredicate', [lambda: M.MatchesPredicate(C6._p_never, '%s is never ok'), lambda: M.MatchesPredicate(C6._p_falsy, 'caf\xe9 %r'),
                               lambda: M.MatchesPredicate(C6._p_is_none, '%s %%'), lambda: M.MatchesPredicate(str.isidentifier, '%s'),
                               lambda: M.MatchesPredicate(C6._p_never, '%s')]),
@@ -246,6 +252,15 @@ def ctor_matchees():
     V += [('list', lambda: [1, 1]), ('list', lambda: [1, 1, 1]), ('bytes', lambda: b'a'), ('float', lambda: 1.5), ('obj', lambda: Color.RED)]
     # round f: the wider path vocabulary (symlinked directories and `..`, relative spellings, loops ...)
     V += [('path', lambda i=i: S.wide_paths()[i]) for i in range(34)]
+    # round g: exc_info tuples / raising callables of user-defined exception classes
+    def info_of(e):
+        try:
+            raise e
+        except BaseException:
+            return sys.exc_info()
+    V += [('tuple', lambda: info_of(C6.MetaSub(2))), ('tuple', lambda: info_of(C6.MetaValueError((1, 2)))), ('tuple', lambda: info_of(C6.OddError(1))),
+          ('tuple', lambda: info_of(C6.UserInterrupt())), ('fn', lambda: C6.Fn(exc=C6.MetaSub(2))), ('fn', lambda: C6.Fn(exc=C6.OddError((1, 2)))),
+          ('fn', lambda: C6.Fn(exc=C6.MetaError('x')))]
     return V
 
 
@@ -300,7 +315,7 @@ class C07(Prop):
             'length <= 4 over 9 bytes, x 3 multiline settings. non-trivial: describe = a mismatch was returned; text_repr = the '
             'text contains a quote, backslash, newline or non-printable; assert = a mismatch with details or existing details')
     assumptions = [
-        'repr(), pprint.pformat(), % and str.format on the values of the universe are assumed total (exercised, not proved)',
+        'repr(), pprint.pformat(), % and str.format on the values of the universe are assumed total (exercised, not proved); the one value of the C06 universe for which str() is not - an instance of the harness class StrRaisesError, kept there for MatchesException(type, "regex") - is left out of the C07 inputs (NotAnInstance.describe() and others format the matchee with %s)',
         'bool values are outside the matcher-expression universe (True == 1 would break structural equality); False / True / 0 / empty str, bytes, list, dict, set as expected values and as matchees, objects whose == answers True / False to everything or has no truth value (array-like), and dict keys without an order inside one type (complex, enum members, plain objects) are exercised through the ctor inputs only',
         'mismatch objects are assumed truthy (every stock Mismatch is): a user-defined falsy Mismatch (e.g. one that is also an empty dict) is treated as "matched" by assertThat/assert_that, AllMatch, AnyMatch, MatchesListwise, the dict matchers and Raises, which test truthiness, but not by MatchesAll/MatchesAny/Not/Annotate, which test `is None` - reported, outside the alphabet',
         'constructor arguments of undocumented types are outside the alphabet: MatchesRegex(<compiled pattern>) fails to build its mismatch (pattern.decode), StartsWith/EndsWith(<tuple containing a newline>) fail in describe() (text_repr of a tuple), DocTestMatches(<bytes>) fails in the constructor; SameMembers over one-shot iterators; lone surrogates in matchees (describe() returns text, but the detail cannot be encoded by the text results)',
@@ -681,6 +696,10 @@ class C07(Prop):
             m = g.matcher(v, rng.choice([0, 0, 1, 1, 2, 2, 3]))
             if rng.random() < 0.12:
                 m = ['pred', rng.randrange(len(C6.PREDS)), rng.choice(['one', 'one', 'one', 'zero', 'empty', 'two'])]
+            elif rng.random() < 0.08:
+                m, v = C6.exc_case(rng, g)
+            if 'StrRaisesError' in repr((m, v)):
+                continue      # a value whose __str__ raises is outside the universe of C07 (describe() formats matchees with %s)
             c = P6.complete([m, v])
             if c is not None:
                 return ['describe', c[0], c[1], rng.random() < 0.4, rng.random() < 0.5]
